@@ -130,12 +130,26 @@ func msgCatalogue() []*eng.Case {
 		pn := &eng.Node{Kind: "ptr", Elem: inner, NotNil: &nn, NNID: id}
 		add(pn, "p", eng.D{K: "p"}, eng.VNil())
 	}
+	// z.CustomFunc schemas: a failing test (given a code) and a type mismatch (coerce)
+	for _, ck := range []string{"int", "str"} {
+		code := "custom"
+		ct := tst("fn")
+		ct.N, ct.R = 2, 2 // never passes
+		ct.Opts.Code = &code
+		cn := &eng.Node{Kind: "custom", CK: ck, CTest: ct}
+		good, bad := eng.VInt(5), eng.VStr("zz")
+		if ck == "str" {
+			good, bad = eng.VStr("zz"), eng.VInt(5)
+		}
+		add(cn, "p", eng.ZeroD(cn), good)
+		add(cn, "p", eng.ZeroD(cn), bad)
+	}
 	return out
 }
 
 func streamMsg(seed uint64, driver string) (*Summary, error) {
 	sum := newSummary("msg", seed)
-	sum.Rule = "every built-in test of every schema type incl. the Not() variants, required / not_nil (every inner type) / coerce, forced to fail once, x 7 formatter levels (global default, execution en/es, i18n none/en/es/unknown language) x {no test message, test-level Message}; exhaustive over this product; non-trivial = every case (each produces exactly the issue under test); distinct = distinct case line"
+	sum.Rule = "every built-in test of every schema type incl. the Not() variants, required / not_nil (every inner type) / coerce, z.CustomFunc schemas (failing test, type mismatch), forced to fail once, x 7 formatter levels (global default, execution en/es, i18n none/en/es/unknown language) x {no test message, test-level Message}; exhaustive over this product; non-trivial = every case (each produces exactly the issue under test); distinct = distinct case line"
 	base := msgCatalogue()
 	var cases []*eng.Case
 	for _, c := range base {
@@ -161,6 +175,9 @@ func streamMsg(seed uint64, driver string) (*Summary, error) {
 						m := "custom not nil"
 						o := eng.TOpts{Msg: &m}
 						n2.NotNil = &o
+					} else if n2.Kind == "custom" && c.Input.K == map[string]string{"int": "i", "str": "s"}[n2.CK] {
+						m := "custom schema message"
+						n2.CTest.Opts.Msg = &m
 					} else {
 						continue
 					}
